@@ -122,7 +122,7 @@ def conditions(tier):
         elif c["shard"].get("token2"):
             out.extend(schedlib.with_prefixes(c, 2 if tier == "quick" else 3))
         elif c["shard"].get("shape") in heavy and c["shard"].get("token_kind") != "file":
-            out.extend(schedlib.with_prefixes(c, 2))
+            out.extend(schedlib.with_prefixes(c, 3 if c["shard"].get("shape") in ("indep3", "diamond4", "two2") else 2))
         else:
             out.append(c)
     return out
